@@ -13,7 +13,7 @@ Fuel == 6000
 ArgRegs == <<"a0", "a1", "a2", "a3", "a4", "a5", "a6", "a7">>
 VARIABLES i, j, phase, mA, rA, rB
 vars == <<i, j, phase, mA, rA, rB>>
-Dummy == [stack |-> <<>>, status |-> "done", rets |-> <<>>, eff |-> <<>>, fuel |-> 0]
+Dummy == [stack |-> <<>>, status |-> "done", rets |-> <<>>, eff |-> <<>>, fuel |-> 0, heap |-> <<>>]
 Reg0(c, inp) == [n \in RVm!Regs |->
    IF \E k \in 1 .. c.nargs : ArgRegs[k] = n THEN inp[CHOOSE k \in 1 .. c.nargs : ArgRegs[k] = n]
    ELSE IF n = "sp" THEN <<0, 0, 255, 127>>
